@@ -321,16 +321,36 @@ def _r2_r3_producer(run, st, work_queues):
     # serial side: either a call to a sibling function or inline statements
     serial_func = None
     inline_serial = any(isinstance(n, (ast.For, ast.While)) for s in serial_arm for n in ast.walk(s))
+    serial_call = None
     for s in ([] if inline_serial else serial_arm):
-        for c in ast.walk(s):
-            if isinstance(c, ast.Call):
-                tgt = common.resolve_callee(project, caller, c)
-                if tgt is not None and tgt.qual != st.func.qual and tgt.module.name.startswith("toasty") \
-                        and _has_loop(tgt.node):
-                    serial_func = common.splice(project, tgt)      # (a loop over a generator helper is that helper's loop)
+        # the serial sibling is what the arm *calls as a statement*; calls inside its arguments (an iterable handed to a shared body
+        # function) are item sources, not siblings
+        outer = [x.value for x in ast.walk(s) if isinstance(x, (ast.Expr, ast.Assign, ast.Return)) and isinstance(getattr(x, "value", None), ast.Call)]
+        outer = [c for c in outer if (lambda t: t is not None and t.module.name.startswith("toasty") and _has_loop(t.node))(common.resolve_callee(project, caller, c))] or \
+            [c for c in ast.walk(s) if isinstance(c, ast.Call)]
+        for c in outer:
+            tgt = common.resolve_callee(project, caller, c)
+            if tgt is not None and tgt.qual != st.func.qual and tgt.module.name.startswith("toasty") \
+                    and _has_loop(tgt.node):
+                serial_func = common.splice(project, tgt)      # (a loop over a generator helper is that helper's loop)
+                serial_call = c
     if serial_func is not None:
         run.note_func(serial_func)
-        sres = _producer_facts(project, serial_func)
+        # a shared body function that loops over one of its parameters: the item source is the argument the arm passes
+        bind = {}
+        if serial_call is not None:
+            sp = serial_func.params()
+            if serial_func.cls is not None and sp and sp[0] in ("self", "cls"):
+                sp = sp[1:]
+            cev = sym.make_evaluator(project, caller.module.name, [])
+            for p_, a_ in list(zip(sp, serial_call.args)) + [(k_.arg, k_.value) for k_ in serial_call.keywords if k_.arg]:
+                if isinstance(a_, (ast.Call, ast.Name, ast.Attribute)) and not isinstance(a_, ast.Starred):
+                    try:
+                        bind[p_] = cev.expr(a_, {})
+                    except Exception:
+                        pass
+        sev = sym.make_evaluator(project, serial_func.module.name, [])
+        sres = sev.run(serial_func.node, args={k_: v_ for k_, v_ in bind.items() if v_[0] == "call"})
         s_loops = [(k, it, node) for k, it, node in sres.loops]
     else:
         sres = _producer_facts(project, caller)
@@ -355,6 +375,12 @@ def _r2_r3_producer(run, st, work_queues):
                       stage=st.name, loop_line=lnode.lineno)
             continue
         key = _strip(it)
+        if key not in s_iters and not s_iters:
+            # nothing to compare with: the serial arm does not loop in any place the rule follows (the loop sits in a shared helper
+            # fed by either iterable, a generator, an object)
+            run.undecided("C03.R2", f, lnode, "parallel producer iterates %s; the serial sibling %s has no loop of its own that the rule follows: the two item sources are "
+                          "not compared" % (sym.show(it)[:80], (serial_func or caller).short), kind="item-source-not-followed", stage=st.name)
+            continue
         if key not in s_iters:
             run.violated("C03.R2", f, lnode,
                          "parallel producer iterates %s but the serial sibling %s iterates %s" % (
@@ -798,6 +824,26 @@ def _worker_rules(run, st, work_queues):
             return
         hc = hcalls[0]
         loop = _innermost_loop(w.node, hc.node)
+        if loop is None and any(isinstance(n_, (ast.Yield, ast.YieldFrom)) for n_ in own_nodes(g.node)):
+            # the receive helper is a generator over the queue: its own loop is the receive loop (checked above); the worker consumes
+            # it with `for item in helper(..)` -- directly or through a name / a parameter of a shared body function
+            names = {t_.id for a_ in own_nodes(w.node) if isinstance(a_, ast.Assign) and a_.value is hc.node for t_ in a_.targets if isinstance(t_, ast.Name)}
+            fors = [n_ for n_ in own_nodes(w.node) if isinstance(n_, ast.For) and (n_.iter is hc.node or (isinstance(n_.iter, ast.Name) and n_.iter.id in names))]
+            if fors:
+                run.holds("C03.R4", w, fors[0], "worker consumes the receive generator %s in a for loop: it stops exactly when the generator does" % g.short, stage=st.name)
+            else:
+                run.undecided("C03.R4", w, hc.node, "the receive generator %s is handed on to something the rule does not follow" % g.short, kind="helper-generator", stage=st.name)
+            return
+        if loop is None:
+            # the whole receive loop may live in the helper, which hands each item to a handler it is given (serve(queue, flag, handle))
+            gcfg = CFG(g.node)
+            g_gets = _gets_on(gcfg, gq)
+            in_loop = [gn for gn, gc_ in g_gets if [s_ for s_, b_ in enclosing_stmts(g.node, gn.ast) if isinstance(s_, (ast.While, ast.For))]]
+            handler_params = [p_ for p_ in g.params() if any(isinstance(c_.func, ast.Name) and c_.func.id == p_ for c_ in own_calls(g.node))]
+            if in_loop and handler_params:
+                run.holds("C03.R4", w, hc.node, "the receive loop lives in %s, which hands every item to the handler `%s` it is given; its exits are checked there" % (
+                    g.short, handler_params[0]), stage=st.name)
+                return
         if loop is None:
             run.violated("C03.R4", w, hc.node, "receive is not inside a loop: the worker handles at most one item", kind="no-loop", stage=st.name)
             return
@@ -997,6 +1043,9 @@ def _has_completion_channel(st):
     if not gets:
         return False
     sets = common.method_calls_on(cfg, _event_vars(st), "set")
+    if not sets:
+        # the flag may be raised inside a shutdown helper that is handed the event
+        sets = [(n_, c_) for n_, c_, h_ in common.effect_sites(st_project(st), st.func, cfg, _event_vars(st), "set") if h_ is not None]
     if not sets:
         return False
     for gn, gc in gets:
